@@ -1287,7 +1287,9 @@ class DNA(symbolic.Object):
       elif len(self.children) == 1:
         child = self.children[0].to_numbers(flatten)
         if isinstance(child, tuple):
-          return tuple([self.value, list(child)])
+          # Chain conditional choices into one tuple, as `DNA.__init__` reads
+          # them: DNA(0, [DNA(1, [DNA(2)])]) <=> (0, 1, 2).
+          return (self.value,) + child
         else:
           return (self.value, child)
       else:
